@@ -42,12 +42,15 @@ theorem strictInc_nodup {l : List Nat} (h : strictInc l = true) : l.Nodup := by
 theorem strictInc_getD_inj {l : List Nat} (h : strictInc l = true) {a b : Nat} (ha : a < l.length)
     (hb : b < l.length) (e : l.getD a 0 = l.getD b 0) : a = b := by
   have hn := strictInc_nodup h
-  rw [List.getD_eq_getElem _ _ ha, List.getD_eq_getElem _ _ hb] at e
+  have e1 : l.getD a 0 = l[a] := by simp [List.getD, ha]
+  have e2 : l.getD b 0 = l[b] := by simp [List.getD, hb]
+  rw [e1, e2] at e
   exact (List.Nodup.getElem_inj_iff hn).mp e
 
 theorem all_lt_getD {l : List Nat} {n : Nat} (h : l.all (fun k => decide (k < n)) = true) {a : Nat}
     (ha : a < l.length) : l.getD a 0 < n := by
-  rw [List.getD_eq_getElem _ _ ha]
+  have e1 : l.getD a 0 = l[a] := by simp [List.getD, ha]
+  rw [e1]
   have := List.all_eq_true.mp h (l[a]) (List.getElem_mem ha)
   simpa using this
 
@@ -106,7 +109,7 @@ theorem foldl_set_spec (a : Nat × Nat → Nat) (g : Nat × Nat → K) (dflt : K
       have hne : a q ≠ x := hx q (List.mem_cons_self ..)
       simp only [Array.getD, Array.size_setIfInBounds]
       split
-      · rename_i h; simp [Array.getElem_setIfInBounds, hne]
+      · rename_i h; exact Array.getElem_setIfInBounds_ne h hne
       · rfl
 
 /-! ## triangular numbers and the packed lower-triangle index -/
